@@ -289,6 +289,10 @@ class StubVoter:
             self.clock.now += sp["delay"]
             _EXTRA["slow_voter_delays"] += 1
         if sp["kind"] == "raise":
+            if self.calls % 3 == 2:      # every third failure is an exception that cannot even be turned into text
+                from rv.faults import Unprintable
+                _EXTRA["voter_raised_unprintable"] += 1
+                raise Unprintable("voter %s is down" % self.name)
             raise VoterDown("voter %s is down" % self.name)
         if sp["kind"] == "garbage":
             return GARBAGE[sp["word"]]
@@ -333,7 +337,7 @@ def conf_value(sp):
 # ---------------------------------------------------------------- reach counters (sys.monitoring)
 _REACH = {}
 _TOOL = None
-_EXTRA = {"virtual_clock_votes": 0, "virtual_clock_reads": 0, "slow_voter_delays": 0}
+_EXTRA = {"virtual_clock_votes": 0, "virtual_clock_reads": 0, "slow_voter_delays": 0, "voter_raised_unprintable": 0}
 
 
 def setup_shard(ctx):
